@@ -18,7 +18,8 @@ THEOREMS = ["Yaw.C15.linear_edges", "Yaw.C15.linspace_interior", "Yaw.C15.mapped
             "Yaw.C15.params_of_create", "Yaw.C15.modify_eq_create", "Yaw.C15.eq_of_params", "Yaw.C15.glue_pinned"]
 RULE = ("stratified product of binning methods (linear, comoving, logspace, custom edges) x closed side x units (8) x "
         "scalar / list scales x cosmologies (Planck15, WMAP9, Planck18) and single- and multi-parameter modifications "
-        "(incl. cosmology only, edges only, custom -> generated, method custom without edges) plus a malformed stream "
+        "(incl. cosmology only, edges only, custom -> generated, method custom without edges), cosmologies given as "
+        "objects (open / closed astropy models, a user-defined CustomCosmology) in every unit, plus a malformed stream "
         "(rmin >= rmax in some scale, non-increasing / single edges, unknown method / unit / cosmology, no limits): "
         "number of bins, strict monotonicity, edges[0]==zmin and edges[-1]==zmax BITWISE, linear edges vs exact "
         "linspace (2 ulp), comoving / logspace interior edges vs an independent astropy evaluation (1e-9), angles vs "
@@ -230,6 +231,41 @@ def run(prop, tier, seed, replay):
             ne, e = attempt(lambda: cfg == other)
             if e or ne:
                 ck.add_violation("configurations with different closed side compare equal", rep)
+    # ---- cosmologies given as objects: curved astropy models and a user-defined CustomCosmology ----------
+    from yaw.cosmology import CustomCosmology
+
+    class ScaledCosmology(CustomCosmology):
+        """Planck15 distances stretched by different factors (D_A is NOT D_C / (1 + z) here)"""
+
+        def to_format(self, format="mapping"):
+            return "scaled"
+
+        def comoving_distance(self, z):
+            return astropy.cosmology.Planck15.comoving_distance(z) * 1.25
+
+        def angular_diameter_distance(self, z):
+            return astropy.cosmology.Planck15.angular_diameter_distance(z) * 0.75
+
+    objects = [("open", astropy.cosmology.LambdaCDM(H0=70, Om0=0.3, Ode0=0.5)),
+               ("closed", astropy.cosmology.LambdaCDM(H0=65, Om0=0.4, Ode0=0.9)), ("custom", ScaledCosmology())]
+    for oi, (oname, cosmo) in enumerate(objects):
+        for unit in ("kpc", "Mpc", "kpc/h", "Mpc/h", "arcmin"):
+            p = dict(rmin=[100.0, 250.0], rmax=[900.0, 2000.0], unit=unit, zmin=0.1, zmax=1.5, num_bins=4, method="linear")
+            cfg, err = attempt(lambda: Configuration.create(cosmology=cosmo, **p))
+            rep = {"params": p, "cosmology": oname}
+            ck.count(f"cosmology-object={oname}")
+            ck.case(None, ("cosmo-object", oname, unit))
+            if err:
+                ck.add_violation(f"a configuration with a {oname} cosmology object is rejected with {err}", rep)
+                continue
+            for z in (0.25, 1.7):
+                amin, amax = cfg.scales.scales.get_angle_radian(z, cosmology=cfg.cosmology)
+                for which, arr, rr in (("min", amin, p["rmin"]), ("max", amax, p["rmax"])):
+                    want = O.angle_of_scale(rr, unit, z, cosmo)
+                    if not np.allclose(np.atleast_1d(arr), want, rtol=1e-13, atol=0):
+                        ck.add_violation(f"{oname} cosmology: angle of r{which} in {unit} at z={z}: {np.atleast_1d(arr).tolist()} "
+                                         f"!= r/D(z) = {np.atleast_1d(want).tolist()}", rep)
+                        break
     # ---- malformed stream ------------------------------------------------------------------------------
     bad = [
         dict(rmin=10, rmax=10, zmin=0.1, zmax=1.0), dict(rmin=100, rmax=10, zmin=0.1, zmax=1.0),
